@@ -13,12 +13,19 @@ theorem listed_functions_found :
       "simpledb.isUnfinishedTable", "simpledb.hasEmptyMetadata", "simpledb.removeUnfinishedTable",
       "SSTableManager.reflectCompactionResult", "wal.NewAppender", "wal.setupNextWriter"].all foundFn) = true := by decide +kernel
 
-/-- `Open`: the three recovery phases in this order, each unconditional, before any background goroutine starts -/
+/-- `Open`: the three recovery phases in this order, each unconditional, before any background goroutine starts.
+Since edfc7e7 a deferred block, registered BEFORE the first phase (so it covers all three), gives the tables loaded so
+far back when — and only when — `Open` fails: close the readers, forget them, all under `err != nil`; a successful
+`Open` closes nothing (the deferred blocks are exactly the unlock and this one). -/
 theorem recovery_phases_in_order :
     let xs := itemsOf "DB.Open"
     inOrder [.repairCompactions, .reconstructSSTables, .replayAndSetupWal, .spawnFlusher] xs = true ∧
     allBefore .replayAndSetupWal .spawnCompactor xs = true ∧
     [Label.repairCompactions, .reconstructSSTables, .replayAndSetupWal].all (fun l => unconditional l xs) = true ∧
+    deferredBlocks xs =
+      [[.act .unlock], [.ifBegin "err != nil", .act .currentSSTable, .act .readerClose, .act .clearReaders, .ifEnd]] ∧
+    allBefore .clearReaders .repairCompactions xs = true ∧
+    occurs .readerClose (immediate 0 xs) = false ∧ occurs .clearReaders (immediate 0 xs) = false ∧
     noOther xs = true := by decide +kernel
 
 /-- D15 (c63f907), live side: `reflectCompactionResult` closes and deletes every compacted table (all of
